@@ -29,6 +29,7 @@ type engine struct {
 	pkgs       []*ssa.Package
 	loadSecs   float64
 	repo       string
+	allFuncs   map[string]*ssa.Function
 }
 
 func loadEngine(repo, theoryDir string) (*engine, error) {
@@ -90,6 +91,20 @@ func loadEngine(repo, theoryDir string) (*engine, error) {
 	}
 	e.loadSecs = time.Since(t0).Seconds()
 	return e, nil
+}
+
+// anyFuncByName: a function of /repo, or (for assumed contracts) of a dependency, by canonical name.
+func (e *engine) anyFuncByName(name string) *ssa.Function {
+	if f := e.funcByName[name]; f != nil {
+		return f
+	}
+	if e.allFuncs == nil {
+		e.allFuncs = map[string]*ssa.Function{}
+		for fn := range ssautil.AllFunctions(e.prog) {
+			e.allFuncs[canonName(fn)] = fn
+		}
+	}
+	return e.allFuncs[name]
 }
 
 // verifyAll generates obligations for the named function blocks (all when names is empty).
